@@ -6,7 +6,7 @@ from hypothesis import strategies as st
 
 from vlib import oracles
 from vlib.poly import Poly
-from vlib.runner import Violation, call
+from vlib.runner import Violation, call, clone_point
 
 PID = "C15"
 RULE = ("(a) exhaustive: every connected graph of the networkx atlas on <= 5 nodes plus every connected 6-node graph "
@@ -125,7 +125,8 @@ def history(draw, tier):
                       "u": [[x.numerator, x.denominator] for x in us]})
     # "plain": phi and u are handed over as ordinary Python numbers (floats, exact zeros included), the way
     # message passing calls the evaluator; otherwise as exact polynomial constants
-    return {"kind": "history", "pool": pool, "steps": steps, "plain": draw(st.booleans())}
+    return {"kind": "history", "pool": pool, "steps": steps, "plain": draw(st.booleans()),
+            "abort_after": draw(st.sampled_from([0, 0, 0, 1, 2, 3, 5, 8, 13]))}
 
 
 def strategy(tier):
@@ -182,6 +183,25 @@ def special_points(case, edges, root, nodes, want):
                     for k, x in enumerate(head):
                         us[others[shift + k]] = x
                     pts.append((tag, 0.5 if shift == 0 else 0.2, us))
+    import numpy as np
+    if len(others) >= 2:
+        # u handed over as NumPy arrays (0-d, or vectors evaluating several sample points at once)
+        base_u = {v: 0.25 + 0.125 * k for k, v in enumerate(others)}
+        for tag, mk in (("arrays-0d", lambda x: np.array(x)), ("arrays-1d", lambda x: np.array([x, 1.0 - x / 2, x]))):
+            arrs = {v: mk(x) for v, x in base_u.items()}
+            keep = {v: a.copy() for v, a in arrs.items()}
+            rl = relabel(case)
+            Gn = graph_of(case["name"] + "@" + tag, [[rl(a), rl(b)] for a, b in edges], {**{rl(v_): a for v_, a in arrs.items()}, rl(root): np.array(7.0)})
+            g = call("automated_equation", AutomatedEquation().automated_equation, Gn, 0.4, int(str(root)))
+            gl = np.atleast_1d(np.asarray(g, dtype=float))
+            for j in range(len(gl)):
+                uj = {v: float(np.atleast_1d(keep[v])[j if keep[v].ndim else 0]) for v in others}
+                w = want.subs({**{f"u{v_}": Fraction(x) for v_, x in uj.items()}, f"u{root}": Fraction(7), "p": Fraction(0.4)})
+                if abs(float(gl[j]) - float(w)) > 1e-9 * max(1.0, abs(float(w))):
+                    raise Violation("identity-special-point", f"motif {case['name']} edges {edges} focal {root} phi 0.4 u as {tag} {keep}: "
+                                                              f"got {g!r}, exact expectation {float(w)!r} (component {j})")
+            if any(not np.array_equal(arrs[v], keep[v]) for v in others):
+                raise Violation("input-mutated", f"motif {case['name']} focal {root}: the u arrays handed over were changed: {keep} -> {arrs}")
     for tag, phi, us in pts:
         us = {**us, root: 7.0}  # the focal vertex's own value is not part of the expectation
         rl = relabel(case)
@@ -245,7 +265,37 @@ def check(case):
             raise
     AE = AutomatedEquation()
     seen = {}
+    if case.get("abort_after"):
+        # an earlier evaluation of the first motif on this evaluator was interrupted part-way (an exception out of the
+        # graph object: a timeout, an interrupt): what the evaluator computes afterwards is unaffected
+        import networkx as nx
+
+        class Interrupted(Exception):
+            pass
+
+        class FlakyGraph(nx.Graph):
+            budget = [case["abort_after"]]
+
+            def copy(self, as_view=False):
+                self.budget[0] -= 1
+                if self.budget[0] < 0:
+                    raise Interrupted()
+                return super().copy(as_view=as_view)
+        stp0 = case["steps"][0]
+        mo0 = case["pool"][stp0["m"]]
+        nodes0 = sorted({v for e in mo0["edges"] for v in e})
+        F = FlakyGraph(name=mo0["name"])
+        F.add_edges_from(map(tuple, mo0["edges"]))
+        nx.set_node_attributes(F, {v: 0.5 for v in nodes0}, "u")
+        try:
+            AE.automated_equation(F, 0.5, int(str(stp0["root"])))
+        except Interrupted:
+            pass
+        except Exception:
+            pass
     for si, stp in enumerate(case["steps"]):
+        if si == len(case["steps"]) // 2:
+            AE = clone_point(AE, case)  # half way through, the caller goes on with a copy of the evaluator
         mo = case["pool"][stp["m"]]
         nodes = sorted({v for e in mo["edges"] for v in e})
         phi = Fraction(*stp["phi"])
@@ -277,4 +327,4 @@ def check(case):
                                                   f"exact expectation {wv} = {float(wv)}; earlier steps {case['steps'][:si]}")
         seen.setdefault(stp["m"], set()).add(phi)
     nt = len(seen) >= 2 and any(len(p) >= 2 for p in seen.values())
-    return {"nontrivial": nt, "classes": ["history"]}
+    return {"nontrivial": nt, "classes": ["history"] + (["after_an_interrupted_evaluation"] if case.get("abort_after") else [])}
